@@ -24,6 +24,7 @@ RULE = (
     "= distinct (layout signature, -, operation-shape signature) pairs counted with a set. No fault is injected (fault set empty)."
 )
 COMPONENTS = {"real": ["spsdk.utils.registers (Registers, Register, RegsBitField, RegsEnum, config processors)", "spsdk.fuses.fuse_registers (FuseRegisters, FuseRegister) for a quarter of the layouts", "spsdk.utils.misc value_to_int / value_to_bytes"], "stub": ["none (the device database lookup is bypassed by loading a generated specification through _load_from_spec)"]}
+MEASURES = {"distinct_schedules": "distinct register layouts (signature of widths, bit-field partition, enums, shifts, groups)", "distinct_states": "not measured (0)", "sim_time_s": "no clock in this code"}
 ASSUMPTIONS = [
     "generated specifications follow the real ones: bit-fields partition the register, gaps are unnamed hidden fields, 'reversed' appears on group registers only",
     "alternative widths: only the alt_set operation judges them (group zeroed first, then a value selecting one of the widths: read-back, sub-register placement, length of the bytes / hex views); the byte-reversed whole-group view of such groups is not value-predicted elsewhere",
